@@ -30,3 +30,21 @@ Theorem C04_gen_refuted : exists S t v,
   exists n b, gen_size S PCompact t v = Ok n /\ gen_encode S PCompact BContig t v = Ok b /\ n <> Z.of_nat (length b).
 Proof. exact size_refuted. Qed.
 Print Assumptions C04_gen_refuted.
+
+(* ---------- the EMITTED size(): lowered to ops (see Properties/C02.v, C02_emitted_ops_match, for the table lemma) ---------- *)
+From PVGen Require Import EmitOps EmitDen Generated.EmittedOps Proofs.EmitOpsP Proofs.EmitTableP.
+
+(* the size ops the template model prescribes denote size_ty (every schema, every value); struct_field_len announces
+   TType::Struct for every non-enum path -- the text has no TType there (finding F-04a is in the model AND in the rows) *)
+Theorem C04_ops_denote_size : forall S ck p, void_variants_zero S = true -> forall v t,
+  (ck = true \/ no_uu v = true) -> den_size (presc_tbl S ck) p (presc_vop S t) v = size_ty S p t v.
+Proof. exact den_size_presc. Qed.
+Print Assumptions C04_ops_denote_size.
+
+(* the regenerated size rows of the corpus are the prescribed ones (table lemma) and therefore denote the model *)
+Theorem C04_emitted_size_ops :
+  (ops_match corpus_schema false emitted_plain /\ ops_match corpus_schema true emitted_keep) /\
+  forall p t v, no_uu v = true ->
+    den_size (map norm_row emitted_plain) p (presc_vop corpus_schema t) v = size_ty corpus_schema p t v.
+Proof. exact (conj (conj emitted_plain_match emitted_keep_match) emitted_size_is_model). Qed.
+Print Assumptions C04_emitted_size_ops.
